@@ -296,3 +296,30 @@ def read_attributes(text, fmt):
             return None
         out.append([unquote(k), [unquote(x) for x in v.split(",")]])
     return out
+
+
+# --- near-equal printed lines (kind eq) ------------------------------------------------------------------------------
+# characters a careless comparison might strip or ignore at the ends of a line
+BLANKS = (" \t\n\r\x0b\x0c\x1c\x1d\x1e\x1f\x85\xa0\u1680\u2000\u2001\u2002\u2003\u2004\u2005\u2006\u2007\u2008\u2009\u200a"
+          "\u2028\u2029\u202f\u205f\u3000\ufeff\u200b")
+
+
+def near_relations(a, b):
+    """Ways in which two DIFFERENT printed lines are nearly the same text (for the monitors; the statement's rule is
+    plain: different lines = unequal features)."""
+    import unicodedata
+
+    out = []
+    if a == b:
+        return out
+    if a.rstrip(BLANKS) == b.rstrip(BLANKS):
+        out.append("trailing whitespace-like characters")
+        if a.rstrip("\t") == b.rstrip("\t"):
+            out.append("an empty trailing column")
+    elif a.strip(BLANKS) == b.strip(BLANKS):
+        out.append("leading whitespace-like characters")
+    if a.casefold() == b.casefold() or a.lower() == b.lower():
+        out.append("letter case")
+    if unicodedata.normalize("NFC", a) == unicodedata.normalize("NFC", b):
+        out.append("Unicode normalisation form")
+    return out
